@@ -27,6 +27,9 @@ fn main() {
     let n: usize = args[2].parse().unwrap();
     ezpz_verif_harness::oracle::arm_crash_reporter("C01");
     let mut rng = Rng::new(seed);
+    // a generator of its own for the half-turn class: adding the class leaves the main stream alone
+    let mut rng_half = Rng::new(seed ^ 0x4A1F_0C01);
+    let mut half_turn_systems = 0usize;
     let mut out: Vec<Violation> = Vec::new();
     let (mut systems, mut oks, mut verdicts, mut listed, mut exempt, mut angle_variants) = (0usize, 0usize, 0usize, 0usize, 0usize, 0usize);
     let (mut nan_targets, mut undefined_errors) = (0usize, 0usize);
@@ -53,6 +56,12 @@ fn main() {
             _ => gen_linear(&mut rng, 5, 8),
         };
         let mut sys = maybe_large(&mut rng, i, sys);
+        // (the half-turn class replaces the system AFTER the random draws above, so that adding it
+        // leaves every other system of the stream as it was)
+        let half_turn = i % 29 == 13;
+        if half_turn {
+            half_turn_systems += 1;
+        }
         if i % 7 == 5 {
             sys = gen_disparity(&mut rng);
         } else if i % 3 == 2 {
@@ -111,6 +120,9 @@ fn main() {
                     ConstraintRequest::new(c, r.priority())
                 })
                 .collect();
+        }
+        if half_turn {
+            sys = gen_half_turn_far_guess(&mut rng_half);
         }
         systems += 1;
         ezpz_verif_harness::oracle::note_current(&sys);
@@ -264,7 +276,7 @@ fn main() {
     }
     let large_systems = large_count();
     println!(
-        "STATS {{\"systems\": {systems}, \"large_systems\": {large_systems}, \"ok_results\": {oks}, \"verdicts_checked\": {verdicts}, \"listed_unsatisfied\": {listed}, \"exempt_degenerate\": {exempt}, \"angle_reexpressions\": {angle_variants}, \"nan_target_requests\": {nan_targets}, \"undefined_errors_checked\": {undefined_errors}, \"per_kind\": {:?}, \"violations\": {}}}",
+        "STATS {{\"systems\": {systems}, \"large_systems\": {large_systems}, \"half_turn_far_guess\": {half_turn_systems}, \"ok_results\": {oks}, \"verdicts_checked\": {verdicts}, \"listed_unsatisfied\": {listed}, \"exempt_degenerate\": {exempt}, \"angle_reexpressions\": {angle_variants}, \"nan_target_requests\": {nan_targets}, \"undefined_errors_checked\": {undefined_errors}, \"per_kind\": {:?}, \"violations\": {}}}",
         per_kind,
         out.len()
     );
